@@ -121,6 +121,22 @@ func CanDescend(v any) bool {
 	}
 }
 
+// StringKeyedMap returns the entries of any map whose keys are strings
+// (map[string]string, a named map type such as type Vars map[string]any, ...)
+// as a map[string]any. ok is false when data is not such a map.
+func StringKeyedMap(data any) (result map[string]any, ok bool) {
+	rv := reflect.ValueOf(data)
+	if rv.Kind() != reflect.Map || rv.Type().Key().Kind() != reflect.String {
+		return nil, false
+	}
+	result = make(map[string]any, rv.Len())
+	iter := rv.MapRange()
+	for iter.Next() {
+		result[iter.Key().String()] = iter.Value().Interface()
+	}
+	return result, true
+}
+
 // StructToMap converts a struct to a map using JSON tags for keys.
 // Nested structs are recursively converted to maps as well.
 func StructToMap(data any) map[string]any {
